@@ -348,7 +348,10 @@ def run_check(prop_id: str, tier: str, seed: int, replay: dict | None = None) ->
                 bad = (tF or tD or tdrv)
                 if bad or terrs:
                     i = bad[0] if bad else None
-                    tie_breaks.append({"tie": tid, "spec_failure": bool(tF), "disagreements": len(tD), "oracle_failures": len(tF),
+                    # a tie whose oracle specifies code the property's statement does not name (TIE_DRIFT_ONLY) reports its
+                    # oracle failures as drift of the modelled code: a correspondence alarm, not a failing input of the property
+                    tie_breaks.append({"tie": tid, "spec_failure": bool(tF) and not getattr(tspec, "TIE_DRIFT_ONLY", False),
+                                       "disagreements": len(tD), "oracle_failures": len(tF),
                                        "case": tcases[i] if i is not None else None,
                                        "implementation": tobs[i] if i is not None else None,
                                        "model": model_view(tspec, tcases[i], tobs[i], workdir, gen_q) if i is not None else "",
